@@ -140,6 +140,7 @@ Definition s_gev (p : N * gev) : sexp :=
   | GSend es d _ _ => L [A (fst p); A 2; slist s_entry es; s_dest d]
   | GRefresh st a k ttl => L [A (fst p); A 3; s_store_id st; A a; s_key k; A ttl]
   | GExpire st a k => L [A (fst p); A 4; s_store_id st; A a; s_key k]
+  | GMulti l => L [A (fst p); A 5; A l]
   end.
 Definition s_glog (w : world) : sexp := slist s_gev (rev (glog w)).
 
